@@ -281,6 +281,17 @@ pub fn c09(tier: &str, seed: u64) {
     let n = g.below(60) as usize;
     junk.push(String::from_utf8_lossy(&g.blob(n)).to_string());
   }
+  // valid ADSS share sets (recovery succeeds, MAC verifies) with messages and coins of any length:
+  // what the grouping call does AFTER a successful recovery must not assume a STAR client's sizes
+  for ml in [0usize, 1, 16, 31, 32, 33, 64, 200] {
+    for rl in [0usize, 32, 33] {
+      let t = g.range(1, 3) as u32;
+      let c = adss::Commune::new(t, g.blob(ml), g.blob(rl), None);
+      let v: Vec<String> = (0..t + 1).map(|_| BASE64_STANDARD.encode(c.clone().share().expect("share").to_bytes())).collect();
+      junk.push(v.join("\n"));
+      stat("oracle.group_shares.valid_adss_sets_of_other_sizes");
+    }
+  }
   for s in junk {
     let s2 = s.clone();
     no_panic("star_wasm::group_shares", &[("serialized_shares", s.clone())], move || {
